@@ -77,6 +77,11 @@ class _Binary(OpDef):
     def illegal_configs(self, tier):
         return [{"a": [2, 3], "b": [2], "form": "tt"}, {"a": [3], "b": [2, 2], "form": "tt"}]
 
+    def smooth_at_zero(self, args):
+        # a zero in the first operand: fine everywhere except as the divisor of c / x
+        return "int" not in args and "npscalar" not in args and "const" not in args and not (self.name == "div" and args["form"] == "st") \
+            and int(np.prod(args["a"], dtype=int)) >= 1
+
     def inputs(self, args):
         f = args["form"]
         if f == "tt":
@@ -278,6 +283,9 @@ class Pow(OpDef):
 
     def illegal_configs(self, tier):
         return [{"a": [2], "n": "tensor"}, {"a": [2], "n": "str"}]
+
+    def smooth_at_zero(self, args):
+        return isinstance(args["n"], (int, float)) and args["n"] >= 1
 
     def inputs(self, args):
         n = args["n"]
